@@ -15,6 +15,8 @@ MONITOR (parent, fresh Cache on the directory, decided from the implementation's
   * check() reports nothing but unknown-file / empty-directory warnings;
   * a write succeeds immediately (timeout 1 s): the dead process left nothing that blocks others;
   * check(fix=True) followed by check() is clean;
+  * iterator workloads: the same when the killed process had a partly consumed iterator of the container alive (iterator_kills), and a
+    live iterator holds no write lock (live_iterators);
   * after that repair EVERY file below the cache directory (whatever its name or suffix) is the database, one of its SQLite
     companions or the value file of a stored row, and no directory is empty (debris_after_repair: decided by walking the
     directory, not by what check() chooses to look at).
@@ -55,6 +57,9 @@ TRUSTED = [
 ]
 ASSUMPTIONS = [
     'power loss / OS crash (un-synced pages) is out of scope: only process death',
+    'live iterators: "nothing that stops others from writing" is also checked BEFORE the kill, for the state a kill would freeze: a client suspended inside a loop '
+    'over the container (which may stay there for as long as its loop body takes) holds no write lock; a raw sqlite3 connection executing BEGIN IMMEDIATE / ROLLBACK '
+    'with timeout 0 on every database of the container stands for the other client',
     'blocks in the workloads complete normally (aborted blocks: see C06)',
 ]
 
@@ -164,6 +169,74 @@ def workloads():
     return out
 
 
+# A loop over a container that is suspended after its first item(s) -- `for x in reversed(deque): ...` with the calls that follow made
+# "inside the loop body", or an iterator the program keeps -- must not change what a kill leaves: every call that COMPLETED while the
+# iterator was alive is fully present afterwards.  iter_open takes the first n items and keeps the iterator; iter_rest exhausts it.
+ITER_HOWS = {'cache': ('iter', 'reversed', 'iterkeys'), 'deque': ('iter', 'reversed'), 'index': ('iter', 'reversed'),
+             'fanout': ('iter', 'reversed'), 'fanout-deque': ('iter', 'reversed'), 'fanout-index': ('iter', 'reversed', 'keys', 'values', 'items')}
+VIEWS = ('keys', 'values', 'items')
+
+
+def iter_open(how, n=1):
+    return {'op': 'iter_open', 'n': n, 'how': 'iter', 'view': how} if how in VIEWS else {'op': 'iter_open', 'n': n, 'how': how}
+
+
+def iter_calls(kind, vname, old, new):
+    """[(name, setup, mutating calls made while the iterator is alive)]"""
+    if kind in ('cache', 'fanout'):
+        base = [{'op': 'set', 'key': 'a', 'value': old}, {'op': 'set', 'key': 'b', 'value': new}, {'op': 'set', 'key': 'c', 'value': 3}]
+        return [('set-new', base, [{'op': 'set', 'key': 'k', 'value': new}]), ('set-replace', base, [{'op': 'set', 'key': 'a', 'value': new}]),
+                ('pop', base, [{'op': 'pop', 'key': 'b'}]), ('incr', base, [{'op': 'incr', 'key': 'n', 'delta': 3}]),
+                ('delete+add', base, [{'op': 'delete', 'key': 'a'}, {'op': 'add', 'key': 'k', 'value': new}]),
+                ('block', base, in_block([{'op': 'set', 'key': 'k', 'value': new}, {'op': 'incr', 'key': 'n'}]))]
+    if kind in ('deque', 'fanout-deque'):
+        dq = [{'op': 'append', 'value': old}, {'op': 'append', 'value': new}, {'op': 'append', 'value': 3}]
+        return [('append', dq, [{'op': 'append', 'value': new}]), ('appendleft', dq, [{'op': 'appendleft', 'value': new}]),
+                ('pop', dq, [{'op': 'pop'}]), ('popleft', dq, [{'op': 'popleft'}]), ('setitem', dq, [{'op': 'setitem', 'index': 0, 'value': new}]),
+                ('extend', dq, [{'op': 'extend', 'values': [new, 9]}]), ('append+popleft', dq, [{'op': 'append', 'value': new}, {'op': 'popleft'}])]
+    ix = [{'op': 'setitem', 'key': 'a', 'value': old}, {'op': 'setitem', 'key': 'b', 'value': new}, {'op': 'setitem', 'key': 'c', 'value': 3}]
+    return [('setitem-new', ix, [{'op': 'setitem', 'key': 'k', 'value': new}]), ('setitem-replace', ix, [{'op': 'setitem', 'key': 'a', 'value': new}]),
+            ('delitem', ix, [{'op': 'delitem', 'key': 'b'}]), ('popitem', ix, [{'op': 'popitem'}]),
+            ('setdefault', ix, [{'op': 'setdefault', 'key': 'k', 'default': new}]), ('update', ix, [{'op': 'update', 'items': [['a', new], ['d', old]]}])]
+
+
+def iter_program(kind, how, calls, n=1):
+    """iterator opened and suspended; the calls; one more completed call; the rest of the iteration"""
+    last = {'op': 'append', 'value': 99} if 'deque' in kind else ({'op': 'setitem', 'key': 'post', 'value': 2} if 'index' in kind else {'op': 'set', 'key': 'post', 'value': SMALL})
+    return [iter_open(how, n)] + calls + [last, {'op': 'iter_rest'}]
+
+
+def iterator_workloads():
+    out = []
+    for kind in ('cache', 'deque', 'index'):
+        for vname, old, new in (('inline', 5, 6), ('file', BIG, BIG2)):
+            for cname, setup, calls in iter_calls(kind, vname, old, new):
+                for how in ITER_HOWS[kind]:
+                    out.append(W('%s:during-%s:%s:%s' % (kind, how, cname, vname), kind, setup, iter_program(kind, how, calls)))
+    return out
+
+
+def iterator_container_workloads():
+    """[(container, (name, setup, program))] for FanoutCache and the Deque / Index it hands out (Index: also the key / value / item views)"""
+    out = []
+    for cont in ({'kind': 'fanout', 'shards': 2}, {'kind': 'fanout', 'shards': 3}, {'kind': 'fanout-deque', 'shards': 2}, {'kind': 'fanout-index', 'shards': 2}):
+        for vname, old, new in (('inline', 5, 6), ('file', BIG, BIG2)):
+            for cname, setup, calls in iter_calls(cont['kind'], vname, old, new):
+                for how in ITER_HOWS[cont['kind']]:
+                    out.append((cont, ('during-%s:%s:%s' % (how, cname, vname), setup, iter_program(cont['kind'], how, calls))))
+    return out
+
+
+class ViewOf:
+    """iter_open of concdrv.Interp iterates its object: this stands in for the object while an Index view (keys() / values() / items()) is opened"""
+
+    def __init__(self, obj, view):
+        self.obj, self.view = obj, view
+
+    def __iter__(self):
+        return iter(getattr(self.obj, self.view)())
+
+
 # ---------------------------------------------------------------------------
 # units and reference states
 
@@ -187,8 +260,8 @@ def apply_unit(ref, program, unit):
     if any(program[j]['op'] == 'raise_in_block' and not program[j].get('caught') for j in range(unit[0], unit[1] + 1)):
         return                  # a block that raises is rolled back as a whole (inline values: exactly; file-backed: finding C06-F1)
     for j in range(unit[0], unit[1] + 1):
-        if program[j]['op'] in concdrv.BLOCK_OPS:
-            continue
+        if program[j]['op'] in concdrv.BLOCK_OPS or program[j]['op'] in concdrv.ITER_OPS:
+            continue            # opening / exhausting an iterator changes nothing
         try:
             ref.apply(program[j])
         except c05.Raise:
@@ -523,9 +596,15 @@ def kill_container(directory, cont, calls, kill_n=None, now=c05.NOW, timeout=5, 
                     else:
                         getattr(o.obj, call['op'])(call['key'], s, read=True)
                 else:
-                    it = concdrv.Interp(0, o.obj, o.kind, calls, lambda: count[0],
-                                        on_done=lambda rec: send(wfd, {'rec': {a: b for a, b in rec.items() if a != 'call'}}),
-                                        on_start=lambda j, call, depth: send(wfd, {'start': j, 'depth': depth, 'e0': count[0]}))
+                    def on_start(j, call, depth):
+                        if call.get('op') == 'iter_open' and call.get('view'):
+                            it.obj = ViewOf(o.obj, call['view'])        # the iterator of index.keys() / .values() / .items()
+                        send(wfd, {'start': j, 'depth': depth, 'e0': count[0]})
+
+                    def on_done(rec):
+                        it.obj = o.obj
+                        send(wfd, {'rec': {a: b for a, b in rec.items() if a != 'call'}})
+                    it = concdrv.Interp(0, o.obj, o.kind, calls, lambda: count[0], on_done=on_done, on_start=on_start)
                     tracer.enable(True)
                     it.run()
                     tracer.enable(False)
@@ -599,8 +678,10 @@ def torn_between_shard_commits(o, ikind, shards, wl, k, snap, allowed):
     e0 = k.get('started_e0')
     inside = ev[e0:] if isinstance(e0, int) else ev
     commits = [e for e in inside if str(e).split()[0] == 'sql:COMMIT' or e == 'sql:COMMIT']
-    if k.get('kill_event') != 'sql:COMMIT' or not commits:
-        return None       # the kill must fall between two COMMITs of the block's end
+    if not commits:
+        return None       # the kill must fall between two COMMITs of the block's end: after the first of them (the calls inside a block commit
+        #                   nothing) -- before the next COMMIT itself or before one of the file removals a committed shard transaction makes
+        #                   on its way out -- and, since a shard still holds the state BEFORE the block (below), before the last one
 
     def shard_of(key):
         return o.fanout._hash(key) % shards
@@ -777,6 +858,11 @@ def container_kills(ctx, res, stats, thorough, deadline=None):
             plan.append((cont, first))
             if cont['kind'] in ('fanout', 'django'):
                 plan.append((cont, rng.choice([w for w in wls if w is not first])))
+    run_container_plan(ctx, res, stats, st, plan, deadline)
+
+
+def run_container_plan(ctx, res, stats, st, plan, deadline=None):
+    """every kill point of every (container, workload) of the plan, inspected through that container"""
     for cont, (name, setup, program) in plan:
         wl = {'name': '%s:%s' % (cont_label(cont), name), 'kind': CONT_INTERP[cont['kind']], 'setup': setup, 'program': program, 'settings': SETTINGS}
         tmpl = container_template(ctx, cont, setup)
@@ -808,6 +894,113 @@ def container_kills(ctx, res, stats, thorough, deadline=None):
         shutil.rmtree(tmpl, ignore_errors=True)
         if c05.enough(res, ID, EXPECTED_SIGS) or (deadline is not None and _time.time() > deadline):
             break
+
+
+def iterator_kills(ctx, res, stats, thorough):
+    """Kills while a partly consumed iterator of the container is alive (iter / reversed / iterkeys of a Cache, iter / reversed of a Deque,
+    an Index and a FanoutCache, the key / value / item views of an Index, also for the Deque / Index a FanoutCache hands out): the iterator
+    takes its first item and is kept, mutating calls complete, then the process is killed -- before every event of those calls, of the call
+    after them and of the rest of the iteration.  Same post-mortem as every other kill point: what had completed is fully present.
+    quick: every container kind x every way of iterating once, the mutating call and the value kind rotated by the seed; thorough: every
+    workload of Cache / Deque / Index and a third (by seed) of those of FanoutCache and its Deque / Index."""
+    plain, conts = iterator_workloads(), iterator_container_workloads()
+    if not thorough:
+        def pick(names):
+            """one workload per (kind, how): names = [(kind, how, index in the list)]"""
+            groups = {}
+            for kind, how, i in names:
+                groups.setdefault((kind, how), []).append(i)
+            return [g[(ctx.seed * 5 + j * 3) % len(g)] for j, (_, g) in enumerate(sorted(groups.items()))]
+        plain = [plain[i] for i in pick([(w['kind'], w['program'][0].get('view') or w['program'][0]['how'], i) for i, w in enumerate(plain)])]
+        keep = pick([(cont_label(c), w[2][0].get('view') or w[2][0]['how'], i) for i, (c, w) in enumerate(conts)
+                     if c['shards'] == 2 + (ctx.seed % 2) or c['kind'] != 'fanout'])
+        conts = [conts[i] for i in keep]
+    else:
+        conts = [x for i, x in enumerate(conts) if i % 3 == ctx.seed % 3]       # a third of the container workloads by seed; every plain one
+    n0 = stats['kills']
+    for wl in plain:
+        run_workload(ctx, res, stats, wl)
+        if c05.enough(res, ID, EXPECTED_SIGS):
+            break
+    if not c05.enough(res, ID, EXPECTED_SIGS):
+        run_container_plan(ctx, res, stats, stats.setdefault('container_kills', {}), conts)
+    stats['iterator_kills'] = {'workloads': len(plain) + len(conts), 'kill_points': stats['kills'] - n0,
+                               'ways_of_iterating': sorted(set('%s:%s' % (w['kind'], w['program'][0].get('view') or w['program'][0]['how']) for w in plain) |
+                                                           set('%s:%s' % (c['kind'], w[2][0].get('view') or w[2][0]['how']) for c, w in conts))}
+
+
+def _write_lock_free(db_dirs):
+    """can another client take the write lock of every database at once?  (a raw connection with timeout 0: BEGIN IMMEDIATE, ROLLBACK)"""
+    import sqlite3
+    for sd in db_dirs:
+        con = sqlite3.connect(os.path.join(sd, 'cache.db'), timeout=0, isolation_level=None)
+        try:
+            con.execute('BEGIN IMMEDIATE')
+            con.execute('ROLLBACK')
+        except sqlite3.OperationalError as e:
+            return '%s: %s' % (os.path.basename(sd) or sd, e)
+        finally:
+            con.close()
+    return None
+
+
+def live_iterator_case(case, d):
+    """A container holding a few items; an iterator of it (case['how']) takes n items and is kept alive.  While it is alive -- the state a kill
+    of this process would freeze -- another client must be able to write AT ONCE (it takes the write lock of every database of the container
+    with timeout 0), also after this client has completed a mutating call of its own.  Returns [(sig, text)]."""
+    cont, how = case['container'], case['how']
+    out = []
+    clock = instr.Clock(c05.NOW)
+    with instr.Installed(clock):
+        if cont['kind'] in ('cache', 'deque', 'index'):
+            obj = concdrv.make_object(cont['kind'], d, SETTINGS, timeout=1)
+            kind, dbs, closer = cont['kind'], [d], lambda: concdrv.close_object(obj)
+        else:
+            o = Opened(cont, d, 1)
+            obj, kind, dbs, closer = o.obj, o.kind, o.db_dirs(), o.close
+        try:
+            name, setup, calls = [x for x in iter_calls(cont['kind'], 'file', BIG, BIG2) if x[0] == case['calls']][0]
+            for c_ in setup:
+                concdrv.apply_call(obj, c_, kind)
+            src = ViewOf(obj, how) if how in VIEWS else obj
+            it = iter(src) if how in VIEWS + ('iter',) else (reversed(src) if how == 'reversed' else src.iterkeys())
+            for _ in range(case.get('n', 1)):
+                next(it)
+            label = 'an iterator (%s) of a %s that has yielded %d item(s) and is still alive' % (how, cont_label(cont) if 'shards' in cont else cont['kind'], case.get('n', 1))
+            busy = _write_lock_free(dbs)
+            if busy:
+                out.append(('write_blocked_by_live_iterator', '%s: another client cannot take the write lock (%s)' % (label, busy)))
+            for c_ in calls:
+                if c_['op'] not in concdrv.BLOCK_OPS:
+                    concdrv.apply_call(obj, c_, kind)
+            busy = _write_lock_free(dbs)
+            if busy and not out:
+                out.append(('write_blocked_by_live_iterator', '%s, after this client completed %s: another client cannot take the write lock (%s)' % (label, name, busy)))
+            del it
+        finally:
+            closer()
+    return [(sig + ':' + cont['kind'], text) for sig, text in out]
+
+
+def live_iterators(ctx, res, stats):
+    n = 0
+    for kind in ('cache', 'deque', 'index', 'fanout', 'fanout-deque', 'fanout-index'):
+        cont = {'kind': kind} if kind in ('cache', 'deque', 'index') else {'kind': kind, 'shards': 2 + (ctx.seed % 2)}
+        names = [x[0] for x in iter_calls(kind, 'file', BIG, BIG2) if x[0] != 'block']
+        for j, how in enumerate(ITER_HOWS[kind] + (VIEWS if kind == 'index' else ())):
+            case = {'check': 'live_iterator', 'container': cont, 'how': how, 'n': 1 + (ctx.seed + j) % 2, 'calls': names[(ctx.seed + j) % len(names)]}
+            d = concdrv.scratch(ctx, 'c07li')
+            try:
+                viol = live_iterator_case(case, d)
+            except Exception as e:  # noqa
+                viol = [('live_iterator_failed:' + kind, 'iterating a %s by %s and writing beside it raised %r' % (kind, how, e))]
+            shutil.rmtree(d, ignore_errors=True)
+            n += 1
+            res.count(['live-iterator', case], nontrivial=True)
+            for sig, desc in viol[:2]:
+                res.violations.append(fw.Violation(sig, desc, case))
+                stats['by_sig'][sig] = stats['by_sig'].get(sig, 0) + 1
+    stats['live_iterators'] = n
 
 
 def fanout_block_witness(ctx, res, stats):
@@ -1289,7 +1482,7 @@ def crash_term(wl, kn, k, d):
     and files (partial and unreferenced ones included) found in the directory, and the outcomes of the finished calls."""
     import schedcorr
     import seqdrv
-    if any(c['op'] in concdrv.BLOCK_OPS for c in wl['program']) or not schedcorr.supported([wl['program']], wl['setup']):
+    if any(c['op'] in concdrv.BLOCK_OPS or c['op'] in concdrv.ITER_OPS for c in wl['program']) or not schedcorr.supported([wl['program']], wl['setup']):
         return
     try:
         obs = seqdrv.observe(d)
@@ -1335,7 +1528,7 @@ def correspondence(ctx, res, kill_records):
         prog = rec['program']
         j = rec['in_flight']
         op = prog[j]['op']
-        if op in tracecorr.SKIP_OPS:
+        if op in tracecorr.SKIP_OPS or op in concdrv.ITER_OPS:
             continue
         # the transaction still open at the kill (a block, if the call in flight is inside one)
         open_from = None
@@ -1372,6 +1565,12 @@ def run(ctx, big=False):
                 '3 pages, Deque and Index operations; each workload = [a finished call, the call under test, a later call]; the child is killed '
                 '(os._exit) before its n-th traced event for EVERY n; the parent then reads the directory through a fresh handle.  '
                 'After the repair (check(fix=True)) every file and directory below the cache directory is accounted for (database, value file of a row, non-empty directory).  '
+                'Live iterators: an iterator of the container (iter / reversed / iterkeys of a Cache; iter / reversed of a Deque, an Index, a FanoutCache and of '
+                'the Deque / Index a FanoutCache hands out; the keys() / values() / items() views of such an Index) takes its first item and is KEPT, then '
+                'storing, replacing and removing calls (inline and file-backed values, a transact block) complete, then one more call, then the rest of the '
+                'iteration; the process is killed before every event of all of it and the same post-mortem applies (every call that completed while the '
+                'iterator was alive is fully present); while such an iterator is alive another connection must get the write lock of every database of '
+                'the container at once (timeout 0), before and after a mutating call of the iterating client.  '
                 'Streams (read=True, 1-3 chunks) given to set/add/push whose read() number j ends the process, every j.  '
                 'Containers: the same enumeration and the same post-mortem for a process killed inside a FanoutCache (shards 1, 2, 3, 5), a DjangoCache '
                 '(SHARDS 2, 3; OPTIONS) and a Deque / Index obtained from FanoutCache.deque / .index (file-backed values, every kill point of storing, '
@@ -1409,6 +1608,10 @@ def run(ctx, big=False):
             stats['stopped_early'] = True
             break
     if not c05.enough(res, ID, EXPECTED_SIGS):
+        iterator_kills(ctx, res, stats, thorough and not big)
+    if not c05.enough(res, ID, EXPECTED_SIGS):
+        live_iterators(ctx, res, stats)
+    if not c05.enough(res, ID, EXPECTED_SIGS):
         stream_kills(ctx, res, stats)
     if not c05.enough(res, ID, EXPECTED_SIGS):
         open_kills(ctx, res, stats, thorough)
@@ -1431,7 +1634,8 @@ def run(ctx, big=False):
         'workloads_run': stats['workloads'], 'workloads_available': stats['workloads_available'], 'kill_points_total': stats['kills'],
         'kill_points_per_workload': stats['kill_points'], 'kills_by_event_kind': stats['kills_by_event'],
         'kills_inside_an_open_transaction': stats['kills_inside_transaction'], 'kills_leaving_unreferenced_files': stats['kills_leaving_debris'],
-        'two_process_kill_runs': stats.get('concurrent_kills', 0), 'violations_by_sig': stats['by_sig'], 'exhaustive': bool(thorough and not stats.get('stopped_early')),
+        'two_process_kill_runs': stats.get('concurrent_kills', 0), 'kills_beside_a_live_iterator': stats.get('iterator_kills', {}),
+        'live_iterators_probed_for_the_write_lock': stats.get('live_iterators', 0), 'violations_by_sig': stats['by_sig'], 'exhaustive': bool(thorough and not stats.get('stopped_early')),
         'soak': {k: v for k, v in stats.items() if k.startswith('soak_')}})
     res.extra_private = {'kill_records': KILL_RECORDS}
     if not ctx.search_mode:
@@ -1475,6 +1679,17 @@ def replay(payload):
             return not viol
         finally:
             ctx.cleanup()
+    if case.get('check') == 'live_iterator':
+        import tempfile
+        d = tempfile.mkdtemp(prefix='c07li-')
+        try:
+            viol = live_iterator_case(case, os.path.join(d, 'c'))
+        finally:
+            shutil.rmtree(d, ignore_errors=True)
+        print('a %s iterated by %s (%d item(s) taken, iterator kept), then %s by the same client; another client takes the write lock with timeout 0 before and after'
+              % (case['container']['kind'], case['how'], case.get('n', 1), case['calls']))
+        print('monitor:', viol)
+        return not viol
     if case.get('check') == 'stream_kill':
         ctx = fw.Ctx('C07', 'quick', 1)
         try:
